@@ -301,6 +301,12 @@ func Close[T any](ch chan<- T) {
 	if p == nil {
 		panic("close of nil channel")
 	}
+	// Closing changes the outcome of other threads' operations on the channel
+	// (it is not a left mover), so it gets a scheduling point of its own.
+	Point("close", p)
+	if s.abort {
+		return
+	}
 	if s.closed[p] {
 		panic("close of closed channel")
 	}
